@@ -14,13 +14,18 @@ PID = "C01"
 THEOREMS = ["pixels_roundtrip", "chunking_irrelevant", "created_offsOK", "matrix_roundtrip_square", "matrix_roundtrip_symm",
             "arrayLoader_spec", "sortByKey_strict", "createFromFrame_px", "clipInt_eq_iff", "checkedWrite_exact",
             "checkedWrite_refuses_iff"]
-LEVELS = {"roundtrip": "top", "metadata": "top", "array_loader": "unit", "value_dtypes": "top"}
+LEVELS = {"big_roundtrip": "top", "call_sequence": "top", "roundtrip": "top", "metadata": "top", "array_loader": "unit", "value_dtypes": "top"}
 DESCRIBE = {
     "roundtrip": "create_cooler(bins, pixels in some input form) then Cooler.pixels()[:] / matrix(balance=False)[:] (dense, sparse) / "
                  "info vs Lean `createStore` + `specWindow`/`specDense` over the full window (theorems pixels_roundtrip, "
                  "matrix_roundtrip_symm/_square, createFromFrame_px, arrayLoader_spec)",
     "metadata": "user metadata document and assembly name given at creation vs Cooler.info (identity)",
     "array_loader": "cooler.create.ArrayLoader(bins, A, chunksize) chunk stream vs Lean `arrayLoader` (= `triuNonzero`)",
+    "big_roundtrip": "one creation with 1 051 975 pixels (n = 1450, three chunks): pixel table exact, matrix windows around record 10^6, "
+                     "on the last rows and elsewhere vs the symmetric completion (numpy transcription of specDense at this size)",
+    "call_sequence": "2-4 creations in one process over one bin table, each with its own dtype requests (int32 / float32 / none) for "
+                     "the columns count and score: every file reads back as given to ITS call, values and dtypes (the model is a "
+                     "function of the call's arguments: theorem pixels_roundtrip has no hidden state)",
     "value_dtypes": "an integer value column GIVEN in one integer dtype (int8..uint64, extremes included) and STORED in another: the "
                     "creation either completes and every value reads back exactly (pixels()[:], raw dataset), or it is refused "
                     "with an exception, and it is refused only when some value does not fit (Lean `checkedWrite`: theorems "
@@ -102,7 +107,12 @@ def _roundtrip(case):
         if form == "array":
             from cooler.create import ArrayLoader
             arr = np.array(A, dtype=np.int64)
-            impl(cooler.create_cooler, path, bdf, ArrayLoader(bdf, arr, case["chunksize"]), ordered=True,
+            loader = ArrayLoader(bdf, arr, case["chunksize"])
+            if case.get("seed", 0) % 2:
+                # the loader is an iterable, not an iterator: a second creation from the SAME object sees the same chunks
+                impl(cooler.create_cooler, path, bdf, loader, ordered=True, symmetric_upper=symm, dtypes={"count": dtype})
+                os.unlink(path)
+            impl(cooler.create_cooler, path, bdf, loader, ordered=True,
                  symmetric_upper=symm, dtypes={"count": dtype}, h5opts=H5OPTS[case["h5opts"]])
             extra_cols = []
         elif form == "frame":
@@ -225,6 +235,85 @@ def _value_dtypes(case):
             os.unlink(path)
 
 
+def _call_sequence(case):
+    """several creations in ONE process, each with its own dtype requests for the same column names: every file reads back
+    as given to ITS call (no state carried from one call to the next); an extra value column without a dtype request is
+    float64 (documented default), `count` without one is int32"""
+    n = case["n"]
+    bins = gen.layout_bins([n])
+    bdf = gen.bins_df(bins)
+    d = gen.tmpdir()
+    paths = []
+    want = []
+    try:
+        for k, call in enumerate(case["calls"]):
+            path = os.path.join(d, f"c01q-{os.getpid()}-{k}.cool")
+            paths.append(path)
+            px = call["pixels"]
+            frac = call["score_dtype"] is None or str(call["score_dtype"]).startswith("float")
+            score = [(v * 2 + 1) / 4.0 if frac else float(v + 3) for _, _, v in px]
+            df = gen.pixels_df(px)
+            df["score"] = np.array(score, dtype=np.float64)
+            dtypes = {}
+            if call["score_dtype"]:
+                dtypes["score"] = call["score_dtype"]
+            if call["count_dtype"]:
+                dtypes["count"] = call["count_dtype"]
+            kw = {"dtypes": dtypes} if (dtypes or call.get("empty_dict")) else {}
+            impl(cooler.create_cooler, path, bdf, df, columns=["count", "score"], **kw)
+            want.append((px, score, call["score_dtype"] or "float64", call["count_dtype"] or "int32"))
+        for k, (path, (px, score, sdt, cdt)) in enumerate(zip(paths, want)):
+            t = impl(lambda: cooler.Cooler(path).pixels()[:])
+            got = [[int(a), int(b), int(c)] for a, b, c in zip(t["bin1_id"], t["bin2_id"], t["count"])]
+            gs = [float(x) for x in t["score"]]
+            if got != [list(p) for p in px] or gs != score or str(t["score"].dtype) != sdt or str(t["count"].dtype) != cdt:
+                return {"mismatch": True, "call_index": k, "calls": case["calls"], "what": "a creation reads back differently from what ITS call was given",
+                        "impl": {"pixels": got, "score": gs, "score_dtype": str(t["score"].dtype), "count_dtype": str(t["count"].dtype)},
+                        "given": {"pixels": px, "score": score, "score_dtype": sdt, "count_dtype": cdt}}
+        return {"stats": {"calls": len(paths)}}
+    finally:
+        for p_ in paths:
+            if os.path.exists(p_):
+                os.unlink(p_)
+
+
+def _big_roundtrip(case):
+    """> 10^6 pixels (the pixel index is built in literal blocks of 10^6 records): the pixel table reads back exactly and the
+    matrix query on the rows around record 1 000 000, on the last rows and on a spread of windows equals the symmetric
+    completion.  Oracle here: a numpy transcription of `specDense` (the Lean definition itself is evaluated on the same
+    family for n <= 9 in `roundtrip`; a million records do not go through the driver)."""
+    n = case["n"]
+    path = os.path.join(gen.tmpdir(), f"c01big-{os.getpid()}.cool")
+    try:
+        iu = np.triu_indices(n)
+        b1, b2 = iu[0].astype(np.int64), iu[1].astype(np.int64)
+        cnt = ((b1 * 7 + b2 * 13) % 5 + 1).astype(np.int32)
+        cuts = [0, len(b1) // 3, 2 * len(b1) // 3 + 1, len(b1)]
+        chunks = ({"bin1_id": b1[a:b], "bin2_id": b2[a:b], "count": cnt[a:b]} for a, b in zip(cuts, cuts[1:]))
+        impl(cooler.create_cooler, path, gen.bins_df(gen.layout_bins([n])), chunks, ordered=True)
+        clr = cooler.Cooler(path)
+        t = impl(lambda: clr.pixels()[:])
+        if len(t) != len(b1) or not (np.array_equal(t["bin1_id"].values, b1) and np.array_equal(t["bin2_id"].values, b2)
+                                     and np.array_equal(t["count"].values, cnt)):
+            return {"mismatch": True, "what": "pixel table of a > 10^6-pixel cooler differs from the input", "nnz": int(len(t))}
+        dense = np.zeros((n, n), dtype=np.int64)
+        dense[b1, b2] = cnt
+        dense[b2, b1] = cnt
+        row_at = int(b1[1_000_000])
+        wins = [(max(0, row_at - 2), min(n, row_at + 3), 0, n), (n - 3, n, 0, n), (0, 3, n - 5, n), (row_at, n, row_at - 7, row_at + 2),
+                (n // 2, n // 2 + 2, n // 3, n // 3 + 50)]
+        for i0, i1, j0, j1 in wins:
+            got = np.asarray(impl(lambda: clr.matrix(balance=False)[i0:i1, j0:j1]))
+            if got.shape != (i1 - i0, j1 - j0) or not np.array_equal(got.astype(np.int64), dense[i0:i1, j0:j1]):
+                bad = np.argwhere(got.astype(np.int64) != dense[i0:i1, j0:j1])[:5].tolist() if got.shape == (i1 - i0, j1 - j0) else None
+                return {"mismatch": True, "what": "matrix window of a > 10^6-pixel cooler differs from the symmetric completion of the input",
+                        "window": [i0, i1, j0, j1], "first_differing_cells": bad, "record_1e6_is_in_row": row_at}
+        return {"stats": {"windows": len(wins)}}
+    finally:
+        if os.path.exists(path):
+            os.unlink(path)
+
+
 def _array_loader(case):
     from cooler.create import ArrayLoader
     A = case["A"]
@@ -243,7 +332,7 @@ def _array_loader(case):
     return None
 
 
-CHECKS = {"value_dtypes": _value_dtypes, "roundtrip": _roundtrip, "metadata": _metadata, "array_loader": _array_loader}
+CHECKS = {"big_roundtrip": _big_roundtrip, "call_sequence": _call_sequence, "value_dtypes": _value_dtypes, "roundtrip": _roundtrip, "metadata": _metadata, "array_loader": _array_loader}
 
 
 def nontrivial(name, case):
@@ -253,6 +342,10 @@ def nontrivial(name, case):
         return bool(case["metadata"])
     if name == "value_dtypes":
         return len(set(case["values"])) >= 2
+    if name == "call_sequence":
+        return len(case["calls"]) >= 2
+    if name == "big_roundtrip":
+        return True
     return any(any(r) for r in case["A"])
 
 
@@ -361,6 +454,19 @@ def cases(tier, rng):
             doc = {"k": None}
         yield "metadata", {"metadata": doc,
                            "assembly": rng.choice(["hg38", "dm6", "T2T-CHM13v2.0", "GRCh38.p13", "my assembly", "ü"])}
+    yield "big_roundtrip", {"n": 1450}
+    # sequences of creations in one process (state must not leak from call to call)
+    yield "call_sequence", {"n": 4, "calls": [{"pixels": [[0, 1, 2], [1, 3, 5]], "score_dtype": "int32", "count_dtype": None},
+                                              {"pixels": [[0, 0, 1], [2, 3, 4]], "score_dtype": None, "count_dtype": None}]}
+    for _ in range(40 if thorough else 10):
+        n = rng.randint(2, 5)
+        calls = []
+        for _k in range(rng.randint(2, 4)):
+            calls.append({"pixels": gen.matrix_kinds(rng, n, True, rng.choice(["random", "full", "diag"])) or [[0, 0, 1]],
+                          "score_dtype": rng.choice([None, None, "int32", "int64", "float32", "float64"]),
+                          "count_dtype": rng.choice([None, None, "int64", "float64"]),
+                          "empty_dict": rng.random() < 0.3})
+        yield "call_sequence", {"n": n, "calls": calls}
     # integer value columns: every (given dtype, stored dtype) pair, values around both dtypes' bounds
     yield "value_dtypes", {"given": "uint32", "stored": "int32", "values": [5, 3000000000, 7], "column": "count", "form": "frame"}
     yield "value_dtypes", {"given": "int32", "stored": "uint32", "values": [1, -4, 9], "column": "count", "form": "dict"}
